@@ -48,9 +48,13 @@ class Engine:
             try:
                 line = self.q.get(timeout=max(0.01, t_end - time.time()))
             except queue.Empty:
-                raise TimeoutError(f"no matching output within {timeout}s; last lines: {out[-3:]}")
+                ex = TimeoutError(f"no matching output within {timeout}s; last lines: {out[-3:]}")
+                ex.lines = out          # lines consumed so far (callers that keep a timeline need them)
+                raise ex
             if line is None:
-                raise EngineDied(f"engine exited (rc={self.p.poll()}); stderr tail: {self.err[-8:]}")
+                ex = EngineDied(f"engine exited (rc={self.p.poll()}); stderr tail: {self.err[-8:]}")
+                ex.lines = out
+                raise ex
             self.transcript.append(("<", line)); out.append(line)
             if pred(line):
                 return out
